@@ -203,8 +203,10 @@ sse_rule_loadoffX (OrcCompiler *compiler, void *user, OrcInstruction *insn)
           dest->alloc, src->is_aligned);
       break;
     case 16:
+      /* the array may be aligned, array + offset is only if the offset is a
+       * multiple of the vector size */
       orc_x86_emit_mov_memoffset_sse (compiler, 16, offset, ptr_reg,
-          dest->alloc, src->is_aligned);
+          dest->alloc, src->is_aligned && (offset & 15) == 0);
       break;
     default:
       orc_compiler_error (compiler,"bad load size %d",
